@@ -86,7 +86,7 @@ def build(cfg: Dict[str, Any], draw: int) -> Built:
         return Built(lambda i: U.silu_glu(i["input"], i["gate"], mult=mult),
                      lambda i: i["input"] * F.silu(i["gate"] * mult) / mult, inp, ["input", "gate"])
     if op == "softmax":
-        inp["input"] = randn(g, batch + [cfg["n"]], dt)
+        inp["input"] = randn(g, batch + [cfg["n"]], dt, cfg.get("scale", 1.0))
         mult, dim = cfg["mult"], cfg["dim"]
         return Built(lambda i: U.softmax(i["input"], dim=dim, mult=mult, **ckw),
                      lambda i: F.softmax(i["input"] * mult, dim=dim), inp, ["input"])
